@@ -126,7 +126,6 @@ Section MQ.
   Hypothesis Q_requeue : forall rid mseq ty p i, Qk (Retry rid mseq ty p i) ->
     Qm {| m_seq := mseq; m_type := ty; m_payload := p; m_cb := Some (Retry rid mseq ty p i);
           m_retry := RTimeout; m_atime := 0 |}.
-  Hypothesis Q_sys : forall c ty p k, ty <> UNKNOWN -> sys_icb k -> Qm (new_msg c ty p RNone k).
   Hypothesis Q_nu : forall m, Qm m -> m_type m <> UNKNOWN.
   Hypothesis Qk_nu : forall k, Qk k -> cbk_ok k.
 
@@ -211,42 +210,6 @@ Section MQ.
     rewrite send_type_out_eq. apply Forall_app. split; [exact A|]. repeat constructor. exact Ht.
   Qed.
 
-  Lemma recv_msgs_MI ms c now orcs c' o : MI c -> recv_msgs c now ms orcs = (c', o) -> MI c'.
-  Proof.
-    intros HN E. revert HN.
-    apply (recv_msgs_rel (fun a b => MI a -> MI b)) with (ms := ms) (now := now) (orcs := orcs) (o := o); try exact E; auto.
-    - intros a bf. apply MI_upd; reflexivity.
-    - intros a s p. apply MI_upd; reflexivity.
-    - intros a n s p a' o' Ef. unfold recv_fragment in Ef. destruct (_ <? _)%nat; [injection Ef as <- <-; auto|].
-      injection Ef as <- <-. destruct (fr_complete _); apply MI_upd; reflexivity.
-    - intros a. apply MI_upd; reflexivity.
-    - intros a ty oo a' os Eh HN. unfold recv_handshake in Eh.
-      destruct ty, (c_server a); try (injection Eh as <- <-; exact HN).
-      + destruct (negb _); [injection Eh as <- <-; exact HN|].
-        destruct (negb _); injection Eh as <- <-; [exact HN|].
-        apply send_type_MI; [apply Q_sys; [discriminate|exact I]|]. eapply MI_upd; [| | |exact HN]; reflexivity.
-      + destruct (o_parse oo =? 6); [injection Eh as <- <-; eapply MI_upd; [| | |exact HN]; reflexivity|].
-        destruct (negb _); injection Eh as <- <-; [exact HN|].
-        eapply MI_upd; [| | |apply (send_type_MI (a <| c_token := o_token oo |> <| c_key := Some (o_key oo) |>) CHALLENGE_RESP (o_reply oo) RNone IChallenge);
-                             [apply Q_sys; [discriminate|exact I]|eapply MI_upd; [| | |exact HN]; reflexivity]]; reflexivity.
-      + destruct (negb _); [injection Eh as <- <-; exact HN|].
-        destruct (o_temp_token oo) as [t|]; [|injection Eh as <- <-; exact HN].
-        destruct (t =? o_token oo); injection Eh as <- <-; [eapply MI_upd; [| | |exact HN]; reflexivity|exact HN].
-  Qed.
-
-  Lemma recv_MI c now d orcs c' o : MI c -> recv c now d orcs = (c', o) -> MI c'.
-  Proof.
-    unfold recv. intros HN E.
-    destruct (keyless_refuses c (d_hdr d)); [injection E as <- <-; eapply MI_upd; [| | |exact HN]; reflexivity|].
-    destruct (open_dgram (c_key c) d) as [ms|]; [|injection E as <- <-; eapply MI_upd; [| | |exact HN]; reflexivity].
-    destruct (bf_insert (c_bf_pkt c) _) as [bf|]; [|injection E as <- <-; eapply MI_upd; [| | |exact HN]; reflexivity].
-    match type of E with context [handle_ack_bits ?c0 _] => set (cc := c0) in E end.
-    assert (Ncc : MI cc) by (eapply MI_upd; [| | |exact HN]; reflexivity).
-    destruct (handle_ack_bits cc (d_hdr d)) as [c1 o1] eqn:E1.
-    destruct (recv_msgs c1 now ms orcs) as [c2 o2] eqn:E2. injection E as <- <-.
-    unfold handle_ack_bits in E1. eapply recv_msgs_MI; [|exact E2]. eapply ack_loop_MI; eassumption.
-  Qed.
-
   (* packet assembly: the selected messages satisfy Qm, and the callbacks registered for the new
      sequence number are exactly theirs *)
   Definition reg_link (c c' : conn) (msgs : list pmsg) : Prop :=
@@ -302,12 +265,17 @@ Section MQ.
       (s = seq_succ (c_seq_send c) /\
        forall k, In k ks -> forall d, In d ds -> exists m, Qm m /\ m_cb m = Some k /\ In (wmsg_of m) (dg_msgs d)).
 
+  (* every message of every datagram put on the wire satisfies Qm *)
+  Definition WireQ (ds : list dgram) : Prop :=
+    forall d, In d ds -> forall w, In w (dg_msgs d) -> exists m, Qm m /\ wmsg_of m = w.
+
   Lemma Link_psub c c' ds : psub c c' -> Link c c' ds.
   Proof. intros H s ks Hs. left. exact (H s ks Hs). Qed.
 
   Lemma tick_tail_link strict e S Ka c n now c1 pk c2 o2 :
     MI c -> PK c -> AInv S Ka c n -> build_packet e c now = (c1, pk) -> check_timeout strict c1 now = (c2, o2) ->
-    MI c2 /\ PK c2 /\ forall cx, Link c c2 (flat_map dg_of (match pk with Some p => emit cx p | None => [] end)).
+    MI c2 /\ PK c2 /\ (forall cx, Link c c2 (flat_map dg_of (match pk with Some p => emit cx p | None => [] end))) /\
+    (forall cx, WireQ (flat_map dg_of (match pk with Some p => emit cx p | None => [] end))).
   Proof.
     intros HN HP HA E1 E2. pose proof (AInv_fresh _ _ _ _ HA) as Hnew.
     assert (Hb : MI c1 /\ PK c1 /\
@@ -326,7 +294,11 @@ Section MQ.
       - auto. }
     destruct Hb as (N1 & P1 & L1). unfold check_timeout in E2.
     destruct (timeout_loop_PK _ _ _ _ _ _ P1 E2) as [P2 S2].
-    split; [eapply timeout_loop_MI; eassumption|]. split; [exact P2|].
+    split; [eapply timeout_loop_MI; eassumption|]. split; [exact P2|]. split.
+    2:{ intros cx d Hd w Hw. destruct pk as [[h ms]|]; [|destruct Hd].
+        destruct L1 as (Hc & Ht & msgs & F & Hms & R).
+        rewrite (emit_dg_msgs cx h ms Hc Ht d Hd), Hms, map_stamp_wmsg in Hw.
+        apply in_map_iff in Hw as (m & <- & Hm). rewrite Forall_forall in F. exists m. split; [exact (F m Hm)|reflexivity]. }
     intros cx s ks Hs. apply S2 in Hs.
     destruct pk as [[h ms]|]; [|left; rewrite <- L1; exact Hs].
     destruct L1 as (Hc & Ht & msgs & F & Hms & R).
@@ -334,6 +306,44 @@ Section MQ.
     intros k Hk d Hd. apply In_opt_list in Hk. apply in_map_iff in Hk as (m & Hk & Hm).
     rewrite Forall_forall in F. exists m. split; [exact (F m Hm)|]. split; [exact Hk|].
     rewrite (emit_dg_msgs cx h ms Hc Ht d Hd), Hms, map_stamp_wmsg. apply in_map. exact Hm.
+  Qed.
+
+  Hypothesis Q_sys : forall c ty p k, ty <> UNKNOWN -> sys_icb k -> Qm (new_msg c ty p RNone k).
+
+  Lemma recv_msgs_MI ms c now orcs c' o : MI c -> recv_msgs c now ms orcs = (c', o) -> MI c'.
+  Proof.
+    intros HN E. revert HN.
+    apply (recv_msgs_rel (fun a b => MI a -> MI b)) with (ms := ms) (now := now) (orcs := orcs) (o := o); try exact E; auto.
+    - intros a bf. apply MI_upd; reflexivity.
+    - intros a s p. apply MI_upd; reflexivity.
+    - intros a n s p a' o' Ef. unfold recv_fragment in Ef. destruct (_ <? _)%nat; [injection Ef as <- <-; auto|].
+      injection Ef as <- <-. destruct (fr_complete _); apply MI_upd; reflexivity.
+    - intros a. apply MI_upd; reflexivity.
+    - intros a ty oo a' os Eh HN. unfold recv_handshake in Eh.
+      destruct ty, (c_server a); try (injection Eh as <- <-; exact HN).
+      + destruct (negb _); [injection Eh as <- <-; exact HN|].
+        destruct (negb _); injection Eh as <- <-; [exact HN|].
+        apply send_type_MI; [apply Q_sys; [discriminate|exact I]|]. eapply MI_upd; [| | |exact HN]; reflexivity.
+      + destruct (o_parse oo =? 6); [injection Eh as <- <-; eapply MI_upd; [| | |exact HN]; reflexivity|].
+        destruct (negb _); injection Eh as <- <-; [exact HN|].
+        eapply MI_upd; [| | |apply (send_type_MI (a <| c_token := o_token oo |> <| c_key := Some (o_key oo) |>) CHALLENGE_RESP (o_reply oo) RNone IChallenge);
+                             [apply Q_sys; [discriminate|exact I]|eapply MI_upd; [| | |exact HN]; reflexivity]]; reflexivity.
+      + destruct (negb _); [injection Eh as <- <-; exact HN|].
+        destruct (o_temp_token oo) as [t|]; [|injection Eh as <- <-; exact HN].
+        destruct (t =? o_token oo); injection Eh as <- <-; [eapply MI_upd; [| | |exact HN]; reflexivity|exact HN].
+  Qed.
+
+  Lemma recv_MI c now d orcs c' o : MI c -> recv c now d orcs = (c', o) -> MI c'.
+  Proof.
+    unfold recv. intros HN E.
+    destruct (keyless_refuses c (d_hdr d)); [injection E as <- <-; eapply MI_upd; [| | |exact HN]; reflexivity|].
+    destruct (open_dgram (c_key c) d) as [ms|]; [|injection E as <- <-; eapply MI_upd; [| | |exact HN]; reflexivity].
+    destruct (bf_insert (c_bf_pkt c) _) as [bf|]; [|injection E as <- <-; eapply MI_upd; [| | |exact HN]; reflexivity].
+    match type of E with context [handle_ack_bits ?c0 _] => set (cc := c0) in E end.
+    assert (Ncc : MI cc) by (eapply MI_upd; [| | |exact HN]; reflexivity).
+    destruct (handle_ack_bits cc (d_hdr d)) as [c1 o1] eqn:E1.
+    destruct (recv_msgs c1 now ms orcs) as [c2 o2] eqn:E2. injection E as <- <-.
+    unfold handle_ack_bits in E1. eapply recv_msgs_MI; [|exact E2]. eapply ack_loop_MI; eassumption.
   Qed.
 
   (* A's application: a new APP message satisfying Qm (unfragmented traffic), connection kept open *)
@@ -385,7 +395,7 @@ Section MQ.
       2:{ injection E as <- <-. split; [exact N1|]. split; [exact P1|]. apply Link_psub. exact S1. }
       destruct (build_packet e c1 now) as [c2 pk] eqn:E2.
       destruct (check_timeout false c2 now) as [c3 o3] eqn:E3. injection E as <- <-.
-      destruct (tick_tail_link _ _ _ _ _ _ _ _ _ _ _ N1 P1 A1 E2 E3) as (N3 & P3 & L3).
+      destruct (tick_tail_link _ _ _ _ _ _ _ _ _ _ _ N1 P1 A1 E2 E3) as (N3 & P3 & L3 & _).
       apply check_timeout_frame in E3 as [_ Ne3].
       split; [exact N3|]. split; [exact P3|].
       rewrite !flat_dg_app, (no_emit_dg _ Ne0), (no_emit_dg _ Ne1), (no_emit_dg _ Ne3). cbn [app]. rewrite app_nil_r.
@@ -394,7 +404,7 @@ Section MQ.
     - unfold server_tick in E. destruct (_ >? _); [|injection E as <- <-; split; [exact HN|split; [exact HP|apply Link_psub, psub_refl]]].
       destruct (build_packet e c now) as [c1 pk] eqn:E1.
       destruct (check_timeout true c1 now) as [c2 o2] eqn:E2. injection E as <- <-.
-      destruct (tick_tail_link _ _ _ _ _ _ _ _ _ _ _ HN HP HA E1 E2) as (N2 & P2 & L2).
+      destruct (tick_tail_link _ _ _ _ _ _ _ _ _ _ _ HN HP HA E1 E2) as (N2 & P2 & L2 & _).
       apply check_timeout_frame in E2 as [_ Ne2].
       split; [exact N2|]. split; [exact P2|]. rewrite flat_dg_app, (no_emit_dg _ Ne2). cbn [app]. apply L2.
     - destruct (recv_PK _ _ _ _ _ _ HP E) as [P1 S1].
